@@ -154,7 +154,17 @@ func (x *X) Fail(key, what string, detail any) {
 }
 
 // Failf is Fail with a formatted description.
-func (x *X) Failf(key string, format string, a ...any) { x.Fail(key, fmt.Sprintf(format, a...), nil) }
+func (x *X) Failf(key string, format string, a ...any) {
+	x.mu.Lock()
+	for _, f := range x.fails {
+		if f.Key == key {
+			x.mu.Unlock()
+			return
+		}
+	}
+	x.mu.Unlock()
+	x.Fail(key, fmt.Sprintf(format, a...), nil)
+}
 
 // OnHang declares what it means if this execution does not finish within the horizon.
 func (x *X) OnHang(key, what string) { x.mu.Lock(); x.hangKey, x.hangWhat = key, what; x.mu.Unlock() }
@@ -185,6 +195,7 @@ type Spec struct {
 type worker struct {
 	mu       sync.Mutex
 	distinct map[uint64]struct{}
+	rerun    map[string]bool
 }
 
 type sample struct {
@@ -298,8 +309,16 @@ func (s *Spec) exploreSubtree(w *worker, prefix []int, deadline time.Time) shard
 				reruns = 1
 			}
 			counts := map[string]int{}
+			fresh := false
 			for _, f := range x.fails {
 				counts[f.Key] = 1
+				if !w.rerun[f.Key] {
+					fresh = true
+					w.rerun[f.Key] = true
+				}
+			}
+			if !fresh {
+				reruns = 0 // this failure class was already re-run in this worker
 			}
 			for i := 0; i < reruns; i++ {
 				y, _ := s.runOnce(w, x.Choices, 0)
@@ -331,7 +350,7 @@ func (s *Spec) exploreSubtree(w *worker, prefix []int, deadline time.Time) shard
 // frontierPrefixes enumerates all choice prefixes of length depth (or shorter complete vectors).
 func (s *Spec) frontierPrefixes(depth int) ([][]int, error) {
 	var out [][]int
-	w := &worker{distinct: map[uint64]struct{}{}}
+	w := &worker{distinct: map[uint64]struct{}{}, rerun: map[string]bool{}}
 	cur := []int{}
 	for {
 		x, st := s.runOnce(w, cur, depth)
@@ -362,7 +381,7 @@ func (s *Spec) WorkerMain() int {
 			return 3
 		}
 	}
-	w := &worker{distinct: map[uint64]struct{}{}}
+	w := &worker{distinct: map[uint64]struct{}{}, rerun: map[string]bool{}}
 	out := bufio.NewWriter(os.Stdout)
 	in := bufio.NewScanner(os.Stdin)
 	in.Buffer(make([]byte, 1<<20), 1<<20)
@@ -453,7 +472,7 @@ func (s *Spec) Replay(path string) int {
 			return 3
 		}
 	}
-	w := &worker{distinct: map[uint64]struct{}{}}
+	w := &worker{distinct: map[uint64]struct{}{}, rerun: map[string]bool{}}
 	x, st := s.runOnce(w, rec.Choices, 0)
 	if s.Fini != nil {
 		s.Fini()
@@ -686,7 +705,7 @@ func (s *Spec) Coordinate() int {
 		"bound":               s.Bound,
 		"max_depth":           maxDepth,
 		"distinct_outcomes":   len(outcomes),
-		"outcomes":            outcomes,
+		"outcomes":            capOutcomes(outcomes, 40),
 		"subtrees":            len(prefixes),
 		"known_findings_seen": knownCount,
 		"unstable":            unstable,
@@ -730,4 +749,36 @@ func (s *Spec) Coordinate() int {
 		return 3
 	}
 	return 0
+}
+
+// capOutcomes keeps the n most frequent outcome classes and folds the rest into one entry.
+func capOutcomes(m map[string]int, n int) map[string]int {
+	if len(m) <= n {
+		return m
+	}
+	type e struct {
+		k string
+		v int
+	}
+	var es []e
+	for k, v := range m {
+		es = append(es, e{k, v})
+	}
+	sort.Slice(es, func(i, j int) bool {
+		if es[i].v != es[j].v {
+			return es[i].v > es[j].v
+		}
+		return es[i].k < es[j].k
+	})
+	out := map[string]int{}
+	rest := 0
+	for i, x := range es {
+		if i < n {
+			out[x.k] = x.v
+		} else {
+			rest += x.v
+		}
+	}
+	out[fmt.Sprintf("(%d other classes)", len(es)-n)] = rest
+	return out
 }
